@@ -2292,6 +2292,13 @@ class Attribute(object):
         bit = obj._bits_except_volatile_[attr]
         wbits = obj._wbits_
         if wbits is not None and not wbits & bit: obj._rbits_ |= bit
+        if value is not None and not attr.columns and attr.reverse:
+            # column-less side of one-to-one: the link is stored in the other object, mark it as read there
+            reverse = attr.reverse
+            rwbits = value._wbits_
+            if rwbits is not None:
+                rbit = value._bits_except_volatile_[reverse]
+                if not rwbits & rbit: value._rbits_ |= rbit
         return value
     def get(attr, obj):
         if attr.pk_offset is None and obj._status_ in ('deleted', 'cancelled'):
@@ -2404,6 +2411,11 @@ class Attribute(object):
                 return
 
         bit = obj._bits_except_volatile_[attr]
+        if is_reverse_call and not attr.columns and new_dbval is not NOT_LOADED \
+                and obj._vals_.get(attr, NOT_LOADED) is None and not attr.is_volatile:
+            # the column-less side was loaded (and found empty) on behalf of the application: attr.load() is the only writer of None
+            throw(UnrepeatableReadError, 'Value of %s for %s was updated outside of current transaction (was: None, now: %s)'
+                                         % (attr, obj, new_dbval))
         if obj._rbits_ & bit:
             assert old_dbval is not NOT_LOADED
             msg = 'Value of %s for %s was updated outside of current transaction' % (attr, obj)
